@@ -408,7 +408,8 @@ def gen(rng, tier):
         ny, nx = rng.randint(3, 14), rng.randint(3, 16)
         k = rng.randint(2, 4)
         strs = rng.random() < 0.5
-        labels = [("S%d" % (i + 1)) if strs else (i + 1) * 3 for i in range(k)]
+        # string labels of unequal length: the mask must hold the longest
+        labels = [(["S1", "S1600A1", "x", "LONG_LABEL_%d" % i][i % 4] + ("" if i < 4 else str(i))) if strs else (i + 1) * 3 for i in range(k)]
         rng.shuffle(labels)      # dict order, not label order, decides which polygon is drawn last
         polys = []
         for _i in range(k):
